@@ -19,10 +19,15 @@
   * re-encode stability is the round trip of C01 applied to the decoder's image; it is decided on the
     implementation by the exact-component oracle on accepted texts (spelled, corpus, accepted mutants).
     PROVED here in the model: on the writer's image (`C11_stable_on_writer_image`: one normalisation pass is a fixed
-    point), for every decoded value that passes an executable certificate (`C11_stable_partial`,
-    `C11_stable_cert_partial`), for all accepted texts whose value is built from Null/Marker/Remove/NA/Bool/Str/Uri
-    and lists (`C11_stable_plain_partial`); the unrestricted statement `C11_stable` is false on the pinned tree
-    (known finding Z4, `C11_stable_fails_Z4`).
+    point); the IMAGE INVARIANT of the reader for ALL accepted texts (`C11_decoder_image`: ids over their alphabets,
+    identifier keys strictly ascending, grid shape, nesting at most 64 — lemma files `Hs/Lemmas/ZincImage*.lean`); from
+    it re-encode stability for ALL accepted texts whose value has no Number / Date / Time / DateTime / Coord leaf
+    (`C11_stable_struct`), up to an explicit exclusion list (`excluded`: grid `ver` other than "3.0", known finding Z4;
+    both needed: `C11_excluded_ver_needed`, `C11_excluded_Z4_needed`) and two shapes the proof does not reach
+    (`dupCols`, nesting exactly 64; kernel-checked examples show them stable); with lexical leaves under the
+    hypothesis that each leaf is a lexeme C01 covers (`C11_stable_full_partial`); for every decoded value that passes
+    an executable certificate (`C11_stable_partial`, `C11_stable_cert_partial`); the unrestricted statement
+    `C11_stable` is false on the pinned tree (`C11_stable_fails_Z4`, `C11_stable_fails_ver`).
 -/
 import Hs.Model.ZincParse
 import Hs.Gen.ScannerRead
@@ -33,6 +38,7 @@ import Hs.Lemmas.ZincLazyReenc
 import Hs.Lemmas.ZincLazyBeq
 import Hs.Lemmas.ZincLazyShape
 import Hs.Lemmas.ZincLazyAvail
+import Hs.Lemmas.ZincImageTop
 namespace Hs.C11
 open Hs Hs.Zinc Hs.C01
 
@@ -347,12 +353,14 @@ value under `f64::from_str` belongs to the trusted base; that finding is decided
 def C11_stable : Prop := C11_stable_on (fun _ => True)
 
 /-- PARTIAL: stability for every decoded value that is well-formed (`wfV`, `depthOk`) and lexical (a fixed point of
-the reader's image).  What is missing for `C11_stable` is the image invariant of the decoder — "`fromBytes t = .ok v`
-implies these three facts about `v`" — which would need, kind by kind, an analysis of the lexer on ARBITRARY input
-(accepted number / date / zone spellings are well-formed; ids come from the id alphabets; `dictOf` yields ascending
-keys; the header parser yields distinct column names …) and which is false as it stands because of Z4 (a row of
-a single-column grid without its cell violates `rowsShape`).  On the implementation the statement is decided for
-accepted texts (spelled, corpus, accepted mutants) by the exact-component oracle on every run. -/
+the reader's image).  These three facts are the reader's IMAGE INVARIANT; `C11_stable_full_partial` below derives
+them for ALL accepted texts from the analysis of the lexer and parser on arbitrary input (`C11_decoder_image`: ids
+come from the id alphabets, `dictOf` yields ascending keys, the header parser yields identifier column names and
+non-empty metas, rows carry only column names, the depth counter bounds the nesting), leaving as hypotheses only
+(a) the exclusion list on which the statement is false (Z4, `ver`), (b) the lexical leaves (number / date / time /
+timestamp / coordinate lexemes must be ones C01 covers) and (c) two shapes C01's round trip does not cover
+(duplicate column names, nesting exactly 64).  On the implementation the statement is decided for accepted texts
+(spelled, corpus, accepted mutants) by the exact-component oracle on every run. -/
 theorem C11_stable_partial :
     C11_stable_on (fun v => wfV (asRead v) = true ∧ depthOk (asRead v) = true ∧ lexImage (asRead v) = v) := by
   intro t v _ ⟨hwf, hd, hlex⟩
@@ -406,8 +414,8 @@ theorem plains_facts : ∀ xs : Vals, plainV.plainVs xs = true → wfVs xs = tru
 end
 
 /-- PARTIAL: re-encode stability for ALL accepted texts whose value is plain (no hypothesis on the text or on the
-payloads: any Str, any Uri, nested lists up to the reader's depth limit).  Missing for the other kinds: the image
-invariant described at `C11_stable_partial`. -/
+payloads: any Str, any Uri, nested lists up to the reader's depth limit).  Superseded by `C11_stable_struct`, which
+adds Ref, Symbol, XStr, Dict and Grid. -/
 theorem C11_stable_plain_partial : C11_stable_on (fun v => plainV v = true ∧ depthOk v = true) := by
   intro t v _ ⟨hp, hd⟩
   obtain ⟨hwf, ha, hl⟩ := plain_facts v hp
@@ -434,6 +442,120 @@ theorem C11_stable_fails_Z4 : ¬ C11_stable := by
   have h1 := h z4Text z4Val z4_accepted trivial
   rw [z4_redecoded] at h1
   simp [z4Val, z4Val'] at h1
+
+
+/-! ### the reader's image invariant and what follows from it, for ALL accepted texts
+
+Lemma files `Hs/Lemmas/ZincImage{Ids,Lex,Dict,Base,Wf,Parse1,Parse2,Top}.lean`.  No hypothesis on the text anywhere:
+the lexer lemmas speak about what `parse_literal`, `parse_id`, the Ref / Symbol readers and `Lexer::read` RETURN on
+any scanner state, the parser lemmas are one induction on the fuel over the twelve functions of the mutual block. -/
+
+/-- **the image invariant of the Zinc reader.**  Whatever the bytes, when `decode::from_str` accepts them the value
+has the reader's shape `decV`: Ref ids non-empty over the id alphabet, Symbol bodies a lower-case letter followed
+by id characters, XStr types capitalised names other than `C`; dict, meta and row keys strictly ascending (`dictOf` =
+`BTreeMap`, also when a key is repeated in the text); dict / meta keys and column names identifiers; every grid has
+at least one column, grid and column meta absent or NON-empty, row keys among the column names; numbers,
+coordinates and timestamps in the reader's lexical normal form; and the value is nested at most 64 deep (`nestV`
+counts a tag as a level even when its value is the implicit Marker, read without a recursive call: 64 is reached
+only by such a tag at the reader's depth limit, see `deep64_*`). -/
+theorem C11_decoder_image (t : List UInt8) (v : Val) (h : fromBytes t = .ok v) : decV v = true ∧ nestV v ≤ 64 :=
+  fromBytes_image t v h
+
+/-- PARTIAL: **re-encode stability for ALL accepted texts, every kind**, under
+* `lexLeavesOk v` — each Number / Date / Time / DateTime / Coord leaf of the decoded value is a lexeme the round trip
+  of C01 covers (`numOk`, `dateOk`, `timeOk`, `dtOk`, `decTextOk`: a decidable test on the value, evaluated by the
+  certificate of every run).  This is where the model stops: a decoded number is the text handed to `f64::from_str`
+  and what `Display` prints for the result belongs to std; the lexemes NOT covered are the legal but non-canonical
+  ones (`5e+3`, which the model's writer would print back verbatim while the real one prints `5000`);
+* `excluded v = false` — the exclusion list: the statement is FALSE on these (`C11_excluded_ver_needed`,
+  `C11_excluded_Z4_needed`);
+* `dupCols v = false`, `depthOk v = true` — NOT counterexamples (`dup_*`, `deep64_*` below are stable): two columns of
+  one name (the reader keeps both, every row then carries one cell for the name) and nesting exactly 64 are outside
+  the hypotheses of C01's round trip `C01_wf`, through which this proof goes.
+Everything else — that the value is `wfV`, that it is its own lexical image — is PROVED from `fromBytes t = .ok v`
+alone (`C11_decoder_image`, `image_wf`). -/
+theorem C11_stable_full_partial :
+    C11_stable_on (fun v => lexLeavesOk v = true ∧ excluded v = false ∧ dupCols v = false ∧ depthOk v = true) := by
+  intro t v ht ⟨hl, hx, hu, hn⟩
+  obtain ⟨a, b, c⟩ := fromBytes_wf t v ht hl hx hu hn
+  exact C11_stable_partial t v ht ⟨a, b, by rw [lexImage_eq]; exact c⟩
+
+/-- **re-encode stability for ALL accepted texts whose value has no lexical leaf** (`structV`: built from Null,
+Remove, Marker, NA, Bool, Str, Uri, Ref with or without display name, Symbol, XStr, List, Dict, Grid with meta /
+column meta / Null and missing cells / nested grids): encoding the decoded value and decoding again yields the
+decoded value, unless the value is on the exclusion list (`excluded`: a grid `ver` other than "3.0", Z4), has two
+columns of one name or is nested exactly 64 deep (see `C11_stable_full_partial` for the status of the last two). -/
+theorem C11_stable_struct :
+    C11_stable_on (fun v => structV v = true ∧ excluded v = false ∧ dupCols v = false ∧ depthOk v = true) := by
+  intro t v ht ⟨hs, hx, hu, hn⟩
+  exact C11_stable_full_partial t v ht ⟨lexLeaves_of_struct v hs, hx, hu, hn⟩
+
+/-! #### the exclusion list is sharp: one kernel-checked witness text per member -/
+
+/-- `ver` ≠ "3.0": the FORMAT VERSION of the document, not a component of the value in the property's sense (the
+property's list of components — kind, payloads, elements, tags, grid meta tags, columns, rows — does not name it, the
+round-trip oracle `same.rs` deliberately does not compare it, C01 / C02 carry `ver = "3.0"` as a stated hypothesis).
+The reader keeps whatever string follows `ver:` (`Grid::ver`), the writer always writes 3.0.  The model's `Val`
+does carry `ver`, so the LITERAL statement `fromBytes (encode (asRead v)) = .ok v` needs the exclusion: this is the
+kernel-checked witness (`ver:"2.0"`, one column, no row). -/
+def verText : List UInt8 := bytesOfAscii "ver:\"2.0\"\na\n\n"
+def verVal : Val := .grid .none (.cons ['a'] .none .nil) .nil ['2', '.', '0']
+def verVal' : Val := .grid .none (.cons ['a'] .none .nil) .nil ['3', '.', '0']
+
+theorem ver_accepted : fromBytes verText = .ok verVal := isOkEq_sound (by decide +kernel)
+theorem ver_reencoded : encode (asRead verVal) = bytesOfAscii "ver:\"3.0\"\na\n\n" := by decide +kernel
+theorem ver_redecoded : fromBytes (encode (asRead verVal)) = .ok verVal' := isOkEq_sound (by decide +kernel)
+
+/-- **`ver` must be on the list**: without it the literal statement is false (all other hypotheses hold of the
+witness); not a defect of the code, see `verText` -/
+theorem C11_excluded_ver_needed :
+    ¬ C11_stable_on (fun v => structV v = true ∧ hasZ4 v = false ∧ dupCols v = false ∧ depthOk v = true) := by
+  intro h
+  have h1 := h verText verVal ver_accepted (by decide +kernel)
+  rw [ver_redecoded] at h1
+  simp [verVal, verVal'] at h1
+
+/-- the literal unrestricted statement also fails on the format version alone (see `verText`: not a finding) -/
+theorem C11_stable_fails_ver : ¬ C11_stable := by
+  intro h
+  have h1 := h verText verVal ver_accepted trivial
+  rw [ver_redecoded] at h1
+  simp [verVal, verVal'] at h1
+
+/-- **Z4 must be on the list** (witness `z4Text` above) -/
+theorem C11_excluded_Z4_needed :
+    ¬ C11_stable_on (fun v => structV v = true ∧ hasVer v = false ∧ dupCols v = false ∧ depthOk v = true) := by
+  intro h
+  have h1 := h z4Text z4Val z4_accepted (by decide +kernel)
+  rw [z4_redecoded] at h1
+  simp [z4Val, z4Val'] at h1
+
+example : excluded verVal = true ∧ hasZ4 verVal = false := by decide +kernel
+example : excluded z4Val = true ∧ hasVer z4Val = false := by decide +kernel
+
+/-! #### the two shapes outside C01's hypotheses are NOT counterexamples -/
+
+/-- two columns `a`: the reader keeps both, a row gets ONE cell `a` (the last one read); re-encoded, that cell is
+written under both columns and read back as the same row -/
+def dupText : List UInt8 := bytesOfAscii "ver:\"3.0\"\na,a,b\n\"x\",,\"z\"\n,\"y\",\n\n"
+def dupVal : Val :=
+  .grid .none (.cons ['a'] .none (.cons ['a'] .none (.cons ['b'] .none .nil)))
+    (.cons (.cons ['a'] (.str ['x']) (.cons ['b'] (.str ['z']) .nil)) (.cons (.cons ['a'] (.str ['y']) .nil) .nil))
+    ['3', '.', '0']
+theorem dup_accepted : fromBytes dupText = .ok dupVal := isOkEq_sound (by decide +kernel)
+theorem dup_is_dup : dupCols dupVal = true ∧ structV dupVal = true ∧ excluded dupVal = false := by decide +kernel
+theorem dup_stable : fromBytes (encode (asRead dupVal)) = .ok dupVal := isOkEq_sound (by decide +kernel)
+
+/-- 63 lists around a dict with one Marker tag: accepted (the tag's implicit Marker needs no recursive call),
+`nestV = 64`, and stable -/
+def deep64 : Nat → Val
+  | 0 => .dict (.cons ['a'] .marker .nil)
+  | n + 1 => .list (.cons (deep64 n) .nil)
+theorem deep64_nest : nestV (deep64 63) = 64 ∧ depthOk (deep64 63) = false := by decide +kernel
+theorem deep64_accepted :
+    fromBytes (List.replicate 63 91 ++ bytesOfAscii "{a}" ++ List.replicate 63 93) = .ok (deep64 63) :=
+  isOkEq_sound (by decide +kernel)
+theorem deep64_stable : fromBytes (encode (asRead (deep64 63))) = .ok (deep64 63) := isOkEq_sound (by decide +kernel)
 
 /-! ## The hypotheses are satisfiable: concrete non-trivial inputs -/
 
@@ -607,6 +729,34 @@ def exPlainVal : Val :=
 theorem exPlain_ok : fromBytes exPlainText = .ok exPlainVal := isOkEq_sound (by decide +kernel)
 example : fromBytes (encode (asRead exPlainVal)) = .ok exPlainVal :=
   C11_stable_plain_partial exPlainText exPlainVal exPlain_ok ⟨by decide +kernel, by decide +kernel⟩
+
+/-- `C11_stable_struct` on a text that is NOT writer output: two blanks between the header tags, a `\u00e9` and a
+`\u0031` escape, blanks around commas, a Ref with display name, a list with a trailing comma, a dict with its tags
+out of order and separated by blanks and commas, a nested grid with column meta, a Symbol and an XStr in it, a missing
+and a Null cell, a row indented by a blank, an empty list, a missing last cell, no blank line at the end -/
+def exStructText : List UInt8 :=
+  "ver:\"3.0\"  dis:\"Caf\\u00e9\"  site\nid  dis:\"Id\" ,  tags foo bar:`u` , g\n@a-1 \"Room \\u0031\" , [ \"x\" , M ,{ b , a:T } , ] , <<\nver:\"3.0\"\nk  doc:\"K\" x,w\n^sym, Bin(\"q\")\n,N\n>>\n @b  , [], \n".toUTF8.toList
+def exStructVal : Val :=
+  match fromBytes exStructText with
+  | .ok v => v
+  | _ => .null
+theorem exStruct_ok : fromBytes exStructText = .ok exStructVal := by
+  have h : (fromBytes exStructText).isOk = true := by decide +kernel
+  unfold exStructVal
+  cases hx : fromBytes exStructText <;> simp_all [Res.isOk]
+/-- the text is not what the writer prints for its value -/
+example : (encode (asRead exStructVal) == exStructText) = false := by decide +kernel
+example : structV exStructVal = true ∧ excluded exStructVal = false ∧ dupCols exStructVal = false ∧
+    depthOk exStructVal = true := by decide +kernel
+example : fromBytes (encode (asRead exStructVal)) = .ok exStructVal :=
+  C11_stable_struct exStructText exStructVal exStruct_ok (by decide +kernel)
+/-- `C11_decoder_image` on the same text and on `exSpelled` (numbers, a timestamp) -/
+example := C11_decoder_image exStructText exStructVal exStruct_ok
+example := C11_decoder_image exSpelled exSpelledVal exSpelled_ok
+/-- `C11_stable_full_partial` on `exSpelled`: its lexical leaves (`1.50kW`, `1`, `2`, `2024-02-29T12:34:56Z UTC`) are
+covered -/
+example : fromBytes (encode (asRead exSpelledVal)) = .ok exSpelledVal :=
+  C11_stable_full_partial exSpelled exSpelledVal exSpelled_ok (by decide +kernel)
 
 end examples
 
